@@ -46,6 +46,13 @@ REPROS = [
      "setup": T3 + ["insert into t1 values (1,1,'a'),(2,2,'b')", "insert into t2 values (1,1,'a')"],
      "sql": "select x1.a from t1 as x1 where (exists (select 1 from t2 as x2)) or (x1.a = 5)",
      "configs": ["mem.on"]},
+    {"id": "Q8", "properties": ["C05", "C17", "C01"],
+     "summary": "subquery plans depend on table statistics: with the real (small) row counts of the disk engine, or "
+                "with mocked small counts, the optimizer extracts a plan that still contains Apply or references "
+                "a column its input does not produce, and the statement panics; the memory engine (no statistics) answers",
+     "setup": T3 + ["insert into t3 values (1,1),(2,2)", "insert into t2 values (1,1,'a')"],
+     "sql": "select x1.a as c1, (x1.b = x1.b) as c2 from t3 as x1 where ((exists (select 1 as s1 from t2 as x2 where (x2.b = x1.b))) and ((x1.a - 2) < x1.a)) order by c1 desc",
+     "configs": ["disk.on"]},
     {"id": "Q6", "properties": ["C02", "C14", "C01"],
      "summary": "aggregates over constants / GROUP BY a constant expression under LIMIT return no rows",
      "setup": T3 + ["insert into t2 values (1,2,'a'),(NULL,NULL,'')"],
